@@ -322,7 +322,7 @@ pub async fn run(tier: &str, replaying: bool) -> ! {
         rep,
         outs,
         "the real server in a child process, brought by raw peers into each of 15 kinds of state (16 repetitions, thorough 48, one at a time, of: first registrations of ever-new topics, 256 in flight over 32 connections, while the signal is delivered - schedules SAMPLED by repetition; four more with 16 in flight against a child whose tasks wait 10 ms (two of them: 10 and 30 ms in turn) before a nested or repeated acquisition of a tokio mutex, which puts the handlers into the window between their two locks for certain; two topics, one of whose routers holds two 200 KiB messages for a slowly accepting subscriber that starts reading at the signal and must receive at least the first; no topic; publisher only; subscriber only; idle pub/sub; pub/sub right after a burst of traffic; pub/sub whose peers have left; replier only; requestor only; both; a rejected second replier; pub/sub and request/reply topics together; a registration whose answer cannot be written because the peer grants no flow-control credit), then SIGINT: the process must exit with status 0 within 20 s",
-        "complements the router-level exploration of C16 (close at every point of every schedule) with Server::shutdown itself: close_channel on every topic, join of all router tasks, endpoint close",
+        "complements the router-level exploration of C16 (close at every point of every schedule) with Server::shutdown itself: close_channel on every topic, join of all router tasks, endpoint close. Every listed state is run (exhaustive over the list); the burst-of-new-topics repetitions are an auxiliary that SAMPLES server schedules, the widened ones stretch the server's lock windows instead of sampling",
         json!({}),
         replaying,
     )
